@@ -1,8 +1,27 @@
-(** C12 (logical core): the table printer never fails on an answer; fix-free formulas evaluate. *)
-From Coq Require Import List.
-From Rsbdd Require Import Core.Bdd Lang.Ast Lang.Eval Lang.Free Lang.FSem Cli.Table Cli.NoPanic.
+(** C12: no input makes the parser or the command-line tool panic.
+    [cli] (Cli/Pipeline.v) is the logic of the binary's main: ordering file and formula text as code
+    points, tokenize, parse, variables, free variables, evaluation, retain, model, both table printers;
+    it returns [CliPanic] exactly where the Rust code would index out of bounds / unwrap a None in the
+    printers.  Tokenizer, parser and evaluator return error values ([Error], [Diverged]), never a panic
+    value, by construction of their result types; that the implementation returns Err on exactly those
+    inputs is the correspondence (suites S-text, S-cli robustlib and robustbin). *)
+From Coq Require Import List NArith.
+Import ListNotations.
+From Rsbdd Require Import Core.Bdd Core.Ops Lang.Ast Lang.Eval Lang.Free Lang.FSem Syntax.Lexer Syntax.Tokenize
+  Cli.Table Cli.NoPanic Cli.Pipeline Cli.PipelineFacts.
+
+(** for every fuel, every classification of non-ASCII code points, every option set, every ordering
+    file and every formula text *)
+Theorem C12_no_panic fuel uc o ordfile txt : cli fuel uc o ordfile txt <> CliPanic.
+Proof. exact (PipelineFacts.C12_no_panic fuel uc o ordfile txt). Qed.
+
 Theorem C12_table vars f n b : nofsub f -> NoDup vars -> (forall x, var_is_free f x = true -> In x vars) ->
   eval_f n f = Some b -> exists rows, tt_rows (free_vars vars f) b (map (fun _ => TA) (free_vars vars f)) = Some rows.
 Proof. exact (C12_table_total vars f n b). Qed.
 Theorem C12_eval f n : nofix f -> size f <= n -> exists b, eval_f n f = Some b. Proof. exact (nofix_total f n). Qed.
-Print Assumptions C12_table. Print Assumptions C12_eval.
+
+(** not vacuous: the pipeline does produce tables, e.g. for "a & -b" under the ordering file "x a b" *)
+Example C12_cli_runs :
+  exists out, cli 50 (fun _ => UOther) (mkOptions TAny TAny false 1) (Some [120; 32; 97; 32; 98]%N) [97; 32; 38; 32; 45; 98]%N = CliOk out
+              /\ length (out_rows out) = 3 /\ length (out_header out) = 2.
+Proof. eexists. split; [vm_compute; reflexivity|]. split; reflexivity. Qed.
